@@ -32,6 +32,10 @@ VMerge(ev) ==
   LET want == SemMerge(ev[2], ev[3]) r == ev[4] IN
   IF {r[i][1] : i \in DOMAIN r} # DOMAIN want \/ Len(r) # Cardinality(DOMAIN want) THEN "merge:keys"
   ELSE Ok(\A i \in DOMAIN r : r[i][2] = want[r[i][1]], "merge:sorted-union")
+(* ["gbprio", rows = <<key, value on the mRNA record ("" = absent), value on the CDS record, value the transcript came back
+   with>>...] : the transcript-level record is asked first, the CDS record is the fall-back *)
+VGbPrio(ev) == Ok(\A k \in DOMAIN ev[2] : LET r == ev[2][k] IN r[4] = (IF r[2] # "" THEN r[2] ELSE r[3]),
+                  "genbank:transcript-record-before-cds-record")
 (* ["gffmerge", children = <<attributes of one child as <<key, values>>...>>..., result <<key, values>>...] : the level-1
    children of a top-level non-gene GFF3 feature are combined into one feature interval whose qualifiers are the key-wise
    sorted union of ALL the children's (2, 3, 4 ... children: the fold must carry its running result) *)
@@ -83,7 +87,7 @@ VExport(ev) ==
   ELSE IF \E i \in DOMAIN ch : AsMap(ch[i][3]) # WantExport(P, ch[i][1], ch[i][2]) THEN "export:key-wise-union"
   ELSE "ok"
 
-Verdict(ev) == CASE ev[1] = "export" -> VExport(ev) [] ev[1] = "gffpick" -> VGffPick(ev) [] ev[1] = "pick" -> VPick(ev) [] ev[1] = "types" -> VTypes(ev) [] ev[1] = "merge" -> VMerge(ev) [] ev[1] = "gffmerge" -> VGffMerge(ev)
+Verdict(ev) == CASE ev[1] = "export" -> VExport(ev) [] ev[1] = "gffpick" -> VGffPick(ev) [] ev[1] = "pick" -> VPick(ev) [] ev[1] = "types" -> VTypes(ev) [] ev[1] = "merge" -> VMerge(ev) [] ev[1] = "gffmerge" -> VGffMerge(ev) [] ev[1] = "gbprio" -> VGbPrio(ev)
                  [] ev[1] = "perm" -> VPerm(ev) [] OTHER -> "unknown-op"
 Bad == {i \in DOMAIN Trace : Verdict(Trace[i]) # "ok"}
 ASSUME \A i \in Bad : PrintT(<<"BAD", i, Verdict(Trace[i])>>)
